@@ -53,5 +53,9 @@ class CallWriteHandler(AbstractWriteHandler):
         exits = self.start_vertex.out_edges()
         assert 3 > len(exits) > 0, f"A call must have exactly one or two points to jump to, has {len(exits)}."
         # Continue with the operation after the call (the other edge leads to the label that is called).
-        # The order of the edges is not reliable, the loop detection removes and re-adds edges.
+        # The order of the edges is not reliable, the loop detection removes and re-adds edges, and removing
+        # a jump after the call raises the flow level of the edge to the next operation.
+        not_the_called_label = [e for e in exits if e.target_vertex["op"] is not op.label]
+        if len(not_the_called_label) == 1:
+            return not_the_called_label[0].target_vertex
         return min(exits, key=lambda e: e["flow_level"]).target_vertex
